@@ -153,6 +153,22 @@ def check_case(R, y, w, lam, do_exact=True, do_float=True, do_health=False):
             return
     if do_float and 1e-6 <= lam <= 1e8:
         z = ws2d_compiled()(y.astype(float), float(lam), w.astype(float))
+        # the same weights carried by another dtype that holds them exactly (a boolean mask, 0/1 integers, float32):
+        # the solution is a property of the numbers, not of the container they arrive in
+        for wdt in (np.bool_, np.int64, np.uint8, np.float32, np.int16):
+            wv = w.astype(wdt)
+            if not np.array_equal(wv.astype(np.float64), w):
+                continue
+            R.count(f"weight_dtype_{np.dtype(wdt).name}")
+            try:
+                z2 = np.asarray(ws2d_compiled()(y.astype(float), float(lam), wv), dtype=np.float64)
+            except Exception as e:
+                R.violation("C01:weight-dtype", f"ws2d raises {type(e).__name__}: {str(e)[:100]} for weights given as {np.dtype(wdt).name} (n={n}, lam={lam})", dict(case, weight_dtype=np.dtype(wdt).name))
+                return
+            d2 = float(np.max(np.abs(z2 - z)))
+            if not (d2 <= 1e-9 * max(1.0, float(np.max(np.abs(z))))):
+                R.violation("C01:weight-dtype", f"ws2d gives a different curve for the same weights stored as {np.dtype(wdt).name}: max |diff| {d2:.3g} (n={n}, lam={lam})", dict(case, weight_dtype=np.dtype(wdt).name))
+                return
         zs = np.array([float(v) for v in zF])
         den = float(np.max(np.abs(zs)))
         err = float(np.max(np.abs(z - zs)))
